@@ -23,6 +23,42 @@ def app(prop, theorems, explanation, assumptions, facts=None):
 
 
 PROPS = {
+    "C19": {
+        "module": "Shutter.Properties.C19",
+        "theorems": ["C19_prefix", "C19_prefix_capped", "C19_sorted", "C19_slot_first", "C19_row_order", "C19_agree",
+                     "C19_pointer_advance", "C19_pointer_start", "C19_pointer_history", "C19_pointer_next", "C19_restart",
+                     "C19_sql_pinned"],
+        "driver": {"pkg": "./cmd/gscheck"},
+        "facts": ["sql"],
+        "trusted_base": [KERNEL, CORR,
+                         "pgfake + kdb: the PostgreSQL wire fake and my Go reading of the gnosis keyper queries; the text of the queries "
+                         "the model stands for is extracted from the sqlc constants on every run and pinned by C19_sql_pinned",
+                         "hook gnosis.VerifNewKeyper / VerifProcessNewSlot / VerifNewDecryptionKeysHandler (build tag verif)",
+                         "modelled, not verified: gas is added in uint64 in the implementation and unbounded in the model (a window's gas "
+                         "limits must not sum to 2^64); the identities hash is replaced by the identity list; MinGasPerTransaction = 0 "
+                         "(division by zero in the implementation) is outside the model's domain",
+                         "the beacon API is an in-process HTTP fake answering proposer duties"],
+        "explanation": "Theorems (Lean, for every table content): on a complete queue with every transaction at or above the minimum gas the "
+                       "chosen transactions are exactly the gas-bounded prefix from the pointer with the at-least-one rule, in queue order "
+                       "(C19_prefix; without the gas assumption still a prefix, C19_prefix_capped); the request is the byte-wise sorted list "
+                       "of the slot identity and the chosen identities, with the slot identity first when the chosen identities are above "
+                       "it (C19_sorted, C19_slot_first); the physical order of rows changes neither the identities, nor the event count, "
+                       "nor the whole trigger (C19_row_order, C19_agree); a keys message with k keys at p leaves (p+k-1, age 0) "
+                       "(C19_pointer_advance); the next request starts at 0 / the stored value / the event count = queue length according "
+                       "to missing / fresh / outdated or unknown (C19_pointer_start, C19_restart); and through any interleaving of "
+                       "submissions and slot ticks after a keys message the pointer stays p+k-1 with age = number of ticks of that set "
+                       "(C19_pointer_history, C19_pointer_next). The real slot handler, keys handler and messaging middleware run over the "
+                       "PostgreSQL fake through generated operation sequences and are compared with the model; the statement of the "
+                       "property is also evaluated directly on every emitted trigger and pointer row, and a second keyper with the rows in "
+                       "another physical order must emit byte-identical requests.",
+        "assumptions": ["slot identity first: holds when no chosen transaction has an all-zero 32-byte prefix with a sender address not above "
+                        "the slot number (the code comment's own assumption; such an address needs a Keccak preimage with 17 leading zero bytes). "
+                        "The example after C19_slot_first exhibits the excluded input; the rig counts such inputs and checks sortedness only",
+                        "queue complete (indices 0..n-1) and every gas limit >= MinGasPerTransaction for the exact-prefix claim; otherwise the "
+                        "row cap gasLimit/minGas+1 may cut the selection short (C19_prefix_capped)",
+                        "the pointer is read for the eon found for the next block and the queue for the keyper set found for it; when the "
+                        "newest keyper set has no eon row yet these differ (modelled as is, theorems stated per eon)"],
+    },
     "C20": {
         "module": "Shutter.Properties.C20",
         "theorems": ["C20_all_once", "C20_any_order", "C20_only_pending"],
